@@ -13,14 +13,17 @@
      each exactly once                                                            : C05_zmatrix_closed, C05_address,
                                                                                     C05_string_table, C05_enumeration_reference
    * operator-string loop = descending ladder product                            : C05_opstring
-  Carried by the correspondence only (still open): the C generator (Gosper's hack) = sorted subsets, k-fold
-  cross-sector maps, de-excitation row fill count.
+   * the C string generator: the *generated* `BitVec 64` body of Gosper's hack = the `Nat` model, and
+     the generator loop lists the k-subsets in increasing numeric order, for every
+     norb ≤ 63 (the C cut-over) and every nele                                    : C05_c_gosper_step, C05_c_generator
+  Carried by the correspondence only (still open): k-fold cross-sector maps, de-excitation row fill count.
 -/
 import FqeVerif.Lemmas.BitsC
 import FqeVerif.Lemmas.Excite
 import FqeVerif.Lemmas.MapEach
 import FqeVerif.Lemmas.Subsets
 import FqeVerif.Lemmas.Address
+import FqeVerif.Lemmas.Gosper
 namespace C05
 open Model Fock
 
@@ -197,5 +200,25 @@ theorem C05_desc_is_fqe_alpha (norb : Nat) (dg : Bool) (q a b : Nat) :
 
 example : mapEachStep [2] [0] 0b011 = (0b110, 1) ∧
     descApply 3 [(2, true), (0, false)] 0b011 = some (true, 0b110) := by decide +kernel
+
+/-- the translated C step of `lexicographic_bitstring_generator` (from bitstring.c, `uint64_t` arithmetic with
+    wrap-around) computes the model's step on every 64-bit word -/
+theorem C05_c_gosper_step (c : BitVec 64) : (GenC.gosper_next c).toNat = gosperNext c.toNat :=
+  GenC.gosper_next_toNat c
+
+/-- start value and loop bound of the C generator -/
+theorem C05_c_gosper_init (nele norb : Nat) (h1 : nele < 64) (h2 : norb < 64) :
+    (GenC.gosper_init nele).toNat = 2 ^ nele - 1 ∧ (GenC.gosper_bound norb).toNat = 2 ^ norb :=
+  ⟨GenC.maskBelow_toNat nele h1, GenC.one_shl_toNat norb h2⟩
+
+/-- the C generator enumerates every `nele`-subset of `{0..norb-1}` exactly once, in increasing numeric order,
+    for all `norb ≤ 63` (above which the library switches to the Python generator) and all `nele` -/
+theorem C05_c_generator (norb nele : Nat) (h : norb ≤ 63) :
+    stringsC norb nele = subsetsAsc norb nele ∧
+    (∀ s, s ∈ stringsC norb nele ↔ (s < 2 ^ norb ∧ cnt s norb = nele)) ∧ (stringsC norb nele).Nodup := by
+  rw [stringsC_eq_subsetsAsc norb nele h]
+  exact ⟨rfl, mem_subsetsAsc norb nele, subsetsAsc_nodup norb nele⟩
+
+example : stringsC 5 2 = [3, 5, 6, 9, 10, 12, 17, 18, 20, 24] := by decide
 
 end C05
